@@ -83,7 +83,7 @@ func newPxWorld(ser bool, rewrite goat.RpcIntercepter) *pxWorld {
 			w.mu.Lock()
 			sd := w.slowDial
 			w.mu.Unlock()
-			if id == "tarpit" && sd != nil {
+			if strings.HasPrefix(id, "tarpit") && sd != nil {
 				<-sd
 				return nil, fmt.Errorf("dial of %q failed after a long time", id)
 			}
